@@ -44,7 +44,13 @@ class MiniPCNSMC(SMCSampler):
         self.sampler_kwargs.setdefault("target_acceptance_rate", 0.234)
         self.sampler_kwargs.setdefault("step_fn", "tpcn")
         self.backend_str = determine_backend_name(xp=self.xp)
-        self.rng = rng or ArrayRNG(backend=self.backend_str)
+        # A generator given to the constructor (this is where
+        # Aspire.sample_posterior routes `rng`) takes precedence over a new one
+        self.rng = (
+            rng
+            or getattr(self, "_user_rng", None)
+            or ArrayRNG(backend=self.backend_str)
+        )
         return super().sample(
             n_samples,
             n_steps=n_steps,
